@@ -29,6 +29,7 @@ type c10Scenario struct {
 	FaultName    string     `json:"fault_name,omitempty"`
 	StdinFault   string     `json:"stdin_fault"` // none closedpipe ioerr
 	StdinFaultAt int        `json:"stdin_fault_at"`
+	AnswerCuts   []int      `json:"answer_cuts,omitempty"` // every answer frame reaches the runner in pieces cut at these offsets
 	Sync         bool       `json:"sync_stdin,omitempty"` // the input pipe has io.Pipe's semantics (see fakeScript.SyncStdin)
 	Main         string     `json:"main"` // closewait | stop
 	Bound        int        `json:"bound"`
@@ -45,6 +46,7 @@ type c10Callback struct {
 	HasResp  bool
 	Err      string
 	Seq      int
+	Running  bool // isRunning() as it would answer at the moment the callback fires
 }
 
 type c10Obs struct {
@@ -72,7 +74,7 @@ func c10RunOne(t *testing.T, sc c10Scenario, prefix []int, expect []gate.PointRe
 	synctest.Test(t, func(t *testing.T) {
 		x = gate.Begin(prefix, expect)
 		obs = &c10Obs{SendRet: map[string]string{}, SendPending: map[string]bool{}}
-		fp = newFakeProc(x, fakeScript{Fault: sc.Fault, FaultAt: sc.FaultAt, CutBytes: sc.CutBytes, FaultName: sc.FaultName, StdinFault: sc.StdinFault, StdinFaultAt: sc.StdinFaultAt, SyncStdin: sc.Sync})
+		fp = newFakeProc(x, fakeScript{Fault: sc.Fault, FaultAt: sc.FaultAt, CutBytes: sc.CutBytes, FaultName: sc.FaultName, AnswerCuts: sc.AnswerCuts, StdinFault: sc.StdinFault, StdinFaultAt: sc.StdinFaultAt, SyncStdin: sc.Sync})
 		ctx, cancel := context.WithCancel(context.Background())
 		runner, err := runClient(ctx, fp.starter())
 		if err != nil {
@@ -81,7 +83,7 @@ func c10RunOne(t *testing.T, sc c10Scenario, prefix []int, expect []gate.PointRe
 		callback := func(name string, resp *conformancev1.ClientCompatResponse, err error) {
 			obs.mu.Lock()
 			defer obs.mu.Unlock()
-			cb := c10Callback{Name: name, Seq: obs.next()}
+			cb := c10Callback{Name: name, Seq: obs.next(), Running: !boolPeek(&runner.(*clientProcessRunner).terminated)}
 			if resp != nil {
 				cb.HasResp = true
 				cb.RespName = resp.TestName
@@ -125,7 +127,7 @@ func c10RunOne(t *testing.T, sc c10Scenario, prefix []int, expect []gate.PointRe
 				sort.Strings(pk)
 				fmt.Fprintf(&sb, "|sent=%v pending=%v wait=%q/%d main=%v post=%q/%v cbs=", keys, pk, obs.WaitRet, obs.WaitSeq, obs.MainDone, obs.PostSend, obs.PostDone)
 				for _, cb := range obs.Callbacks {
-					fmt.Fprintf(&sb, "%s/%v/%s/%d;", cb.Name, cb.HasResp, cb.Err, cb.Seq)
+					fmt.Fprintf(&sb, "%s/%v/%s/%d/%v;", cb.Name, cb.HasResp, cb.Err, cb.Seq, cb.Running)
 				}
 				obs.mu.Unlock()
 				return sb.String()
@@ -255,6 +257,11 @@ func c10Judge(sc c10Scenario, obs *c10Obs, fp *fakeProc, x *gate.Exec) []gateVer
 		} else if cb.Err == "" {
 			add("empty-callback", "callback for %q carried neither response nor error", cb.Name)
 		}
+		if !cb.HasResp && cb.Err != "" && cb.Running && !strings.Contains(cb.Err, errNoOutcome.Error()) && !strings.Contains(cb.Err, errClosed.Error()) {
+			// the reader gave up on the client's output (garbage, oversize, unknown or duplicate name,
+			// truncation, time-out): by the time a caller hears of it the client counts as not running
+			add("running-while-failure-reported", "callback for %q reports %q while isRunning() would still answer true", cb.Name, cb.Err)
+		}
 		if obs.WaitSeq != 0 && cb.Seq > obs.WaitSeq && cb.Name != "post/x" {
 			add("callback-after-wait", "callback for %q fired after waitForResponses returned", cb.Name)
 		}
@@ -368,9 +375,42 @@ func c10Scenarios(thorough bool) []c10Scenario {
 		for _, sf := range []string{"closedpipe", "ioerr"} {
 			for k := 0; k < total; k++ {
 				out = append(out, c10Scenario{Senders: ss, Fault: "none", StdinFault: sf, StdinFaultAt: k, Main: "closewait"})
+				// the client has closed its input (a send was refused and recorded) and then spoils its output without exiting
+				for _, f := range []string{"unknown", "garbage", "dup", "oversize"} {
+					if !thorough && (total > 2 || (f != "unknown" && f != "garbage")) {
+						continue
+					}
+					for at := 0; at <= k && at < 2; at++ {
+						if f == "dup" && at == 0 {
+							continue
+						}
+						out = append(out, c10Scenario{Senders: ss, Fault: f, FaultAt: at, StdinFault: sf, StdinFaultAt: k, Main: "closewait"})
+					}
+				}
 				if thorough {
 					out = append(out, c10Scenario{Senders: ss, Fault: "exit1", FaultAt: 0, StdinFault: sf, StdinFaultAt: k, Main: "closewait"})
 				}
+			}
+		}
+	}
+	// an answer reaches the runner in pieces (every way of cutting the first answer's frame into up to three
+	// pieces), then the client goes silent with a request outstanding: the 20 s time-out must still fire
+	{
+		ss := [][]string{{"abc", "b"}}
+		flen := 4 + 2 + 3 // prefix + field header + name
+		for i := 0; i < flen; i++ {
+			for j := i; j < flen; j++ {
+				var cuts []int
+				if i > 0 {
+					cuts = append(cuts, i)
+				}
+				if j > i {
+					cuts = append(cuts, j)
+				}
+				if !thorough && len(cuts) == 2 && !(cuts[0] <= 4 || cuts[1]-cuts[0] <= 4) {
+					continue
+				}
+				out = append(out, c10Scenario{Senders: ss, Fault: "stall", FaultAt: 1, AnswerCuts: cuts, StdinFault: "none", Main: "closewait"})
 			}
 		}
 	}
@@ -514,7 +554,7 @@ func TestVerifC10Race(t *testing.T) {
 
 func c10RunFree(sc c10Scenario) (*c10Obs, *fakeProc, []gateVerdict) {
 	obs := &c10Obs{SendRet: map[string]string{}, SendPending: map[string]bool{}}
-	fp := newFakeProc(nil, fakeScript{Fault: sc.Fault, FaultAt: sc.FaultAt, CutBytes: sc.CutBytes, FaultName: sc.FaultName, StdinFault: sc.StdinFault, StdinFaultAt: sc.StdinFaultAt, SyncStdin: sc.Sync})
+	fp := newFakeProc(nil, fakeScript{Fault: sc.Fault, FaultAt: sc.FaultAt, CutBytes: sc.CutBytes, FaultName: sc.FaultName, AnswerCuts: sc.AnswerCuts, StdinFault: sc.StdinFault, StdinFaultAt: sc.StdinFaultAt, SyncStdin: sc.Sync})
 	ctx, cancel := context.WithCancel(context.Background())
 	defer cancel()
 	runner, err := runClient(ctx, fp.starter())
@@ -524,7 +564,7 @@ func c10RunFree(sc c10Scenario) (*c10Obs, *fakeProc, []gateVerdict) {
 	callback := func(name string, resp *conformancev1.ClientCompatResponse, err error) {
 		obs.mu.Lock()
 		defer obs.mu.Unlock()
-		cb := c10Callback{Name: name, Seq: obs.next()}
+		cb := c10Callback{Name: name, Seq: obs.next(), Running: !boolPeek(&runner.(*clientProcessRunner).terminated)}
 		if resp != nil {
 			cb.HasResp = true
 			cb.RespName = resp.TestName
